@@ -712,8 +712,13 @@ func (ipcp *IPCPStateMachine) timeout() {
 		switch ipcp.state {
 		case IPCPStateClosing, IPCPStateStopping:
 			ipcp.sendTerminateRequest("Timeout")
-		case IPCPStateReqSent, IPCPStateAckRcvd, IPCPStateAckSent:
+		case IPCPStateReqSent, IPCPStateAckSent:
 			ipcp.sendConfigureRequest()
+		case IPCPStateAckRcvd:
+			// RFC 1661 TO+ in Ack-Rcvd: the retransmitted request carries a new identifier
+			// that the peer has not acknowledged, so fall back to Req-Sent
+			ipcp.sendConfigureRequest()
+			ipcp.setState(IPCPStateReqSent)
 		}
 	} else {
 		switch ipcp.state {
